@@ -5,6 +5,7 @@ From FMP Require Import Base.Bytes Base.Lts Model.Events Model.Skeleton Model.Pr
      Proofs.DispatchProofs Proofs.ReceiverProofs Proofs.WriterProofs Proofs.MsgpackProofs Proofs.FrameProofs
      Proofs.SkeletonProofs Proofs.ReceiverProgress Proofs.WriterProgress
      Model.Tags Model.TagsCfg Proofs.TagsProofs Proofs.TagsCfgProofs.
+From FMP Require Import Model.Paths Proofs.PathsC01.
 Open Scope Z_scope.
 
 (* no caller ever observes another call's reply, whatever the order and delay in which replies arrive: every result
@@ -123,6 +124,10 @@ Proof. exact sibling_tags_for_ever. Qed.
 Theorem C01_tag_copies_generated_ok : tcfg_now = good.
 Proof. exact tcfg_generated_ok. Qed.
 
+(* on every path through the function bodies as they are in the source now (Generated.body_census, enumerated by Model/Paths.v) of the three Serve functions the handler is invoked exactly once; calls reply after it, a notification never replies *)
+Theorem C01_source_handler_invoked_once : serve_paths_handler_once = true.
+Proof. exact paths_serve_handler_once. Qed.
+
 Print Assumptions C01_no_crosstalk.
 Print Assumptions C01_seqnos_distinct.
 Print Assumptions C01_registered_while_outstanding.
@@ -140,3 +145,4 @@ Print Assumptions C01_reply_can_complete.
 Print Assumptions C01_writer_alive_until_closed.
 Print Assumptions C01_sibling_calls_keep_their_own_tags.
 Print Assumptions C01_tag_copies_generated_ok.
+Print Assumptions C01_source_handler_invoked_once.
